@@ -193,5 +193,5 @@ def run(ctx):
         n_ = engine.take_over(ctx, c2_.obs, lambda o: o.rule == "C01.2" and "flush" in o.key, "C18.7", "the interim response reaches the wire at once: ")
         ctx.floor("C18.7 obligations on the writer's flush", n_, 1)
     except CheckerError as e:
-        ctx.ob("C18.7", "writer-flush", "the turn-taking writer could be evaluated", False, "sequential.rs", str(e))
+        raise CheckerError("C18.7 (the turn-taking writer could not be evaluated): %s" % e)
     return {}
